@@ -73,6 +73,7 @@ SecpSMT.fofint_mod SecpSMT
 SecpSMT.fint_range SecpSMT
 SecpSMT.fofint_fint SecpSMT
 SecpSMT.fofint_wide SecpSMT
+SecpSMT.fofint_lin SecpSMT
 SecpSMT.fermat_inv SecpSMT
 SecpSMT.sqrt_ratio_one SecpSMT
 SecpSMT.glue_add_n SecpSMT
